@@ -88,7 +88,11 @@ class C02(common.Spec):
                     if e.get('same_as') is not None and e['same_as'] < len(objs):
                         objs.append(objs[e['same_as']])      # the very same Event object listed again
                     else:
-                        objs.append(edzed.Event(dests[e['dest']], 'ev',
+                        # every second configuration uses a conditional event type (both branches name
+                        # the same type: whatever 'value' is - or if the filters removed it - the event
+                        # is delivered as 'ev')
+                        objs.append(edzed.Event(dests[e['dest']],
+                                                edzed.EventCond('ev', 'ev') if len(e['filters']) % 2 else 'ev',
                                                 efilter=[_c16._mk_filter(f, None) for f in e['filters']]
                                                 if e['filters'] else None))
                 return objs
